@@ -1,14 +1,14 @@
 (** Executable model of the receive and send paths of socket/udp-turn-over-tcp.c.
     [turn_body] is one call of socket_recv_messages with one message (what the agent passes);
-    [recv_buf] is a 65536-byte checked array, so a frame header announcing more than fits makes the
-    model Fault at the write that leaves the buffer.  No proofs in this file. *)
+    [recv_buf] is a 65556-byte checked array: the largest frame a header can announce (20 + 65535 bytes
+    of STUN message, padded to a multiple of 4) fits.  No proofs in this file. *)
 From Coq Require Import ZArith List Bool.
 From Nice Require Import Stream.StreamBase.
 Import ListNotations.
 Local Open Scope Z_scope.
 
 Definition DRAFT9 := 0. Definition GOOGLE := 1. Definition MSN := 2. Definition OC2007 := 3. Definition RFC5766 := 4.
-Definition RECV_BUF_SIZE : Z := 65536.
+Definition RECV_BUF_SIZE : Z := 65556.   (* 20 + 65535 bytes of STUN message + padding to a multiple of 4 *)
 
 Record tst := { t_compat : Z; t_buf : list Z; t_len : Z; t_exp : Z }.
 
